@@ -103,7 +103,9 @@ def check_shape(case):
         world.add_cell_component('elevation', lambda pos, cells: (9, 9, 9))
         world.add_cell_component('Flow', lambda pos, cells: 3)
         world.add_cell_component('zone', lambda pos, cells: (0, 0, 0))
-    table = [tuple(p) for p in world.cells['pos']]
+    # the reference numbering of the cells is computed here (x fastest, then y, then z), not read from the world
+    ext_ = [max(e, 1) for e in (list(dims) + [0] * (3 - len(dims)))]
+    table = [(x, y, z) for z in range(ext_[2]) for y in range(ext_[1]) for x in range(ext_[0])]
     if case.get('sorted'):
         # the user ranks the cells by a component, in place: every cell keeps its id as the row label
         world.add_cell_component('rank', lambda pos, cells: -(7 * pos[0] + 3 * pos[1] + pos[2]) % 5)
@@ -338,7 +340,9 @@ def run(ctx):
               {'leg': 'big', 'kind': 'grid', 'dims': [20, 18], 'big': True, 'radii': [8, 9, 21]},
               # windows of more than 4096 cells around off-centre cells
               {'leg': 'big', 'kind': 'grid', 'dims': [100, 90], 'big': True, 'huge': True, 'radii': [45]},
-              {'leg': 'big', 'kind': 'discrete', 'dims': [18, 17, 19], 'big': True, 'huge': True, 'radii': [9]}]
+              {'leg': 'big', 'kind': 'discrete', 'dims': [18, 17, 19], 'big': True, 'huge': True, 'radii': [9]},
+              # an axis longer than 2**15 cells: centres at its far end
+              {'leg': 'big', 'kind': 'line', 'dims': [40000], 'big': True, 'huge': True, 'radii': [2]}]
     if ctx.tier == 'thorough':
         cases += [{'leg': 'big', 'kind': 'discrete', 'dims': [9, 8, 7], 'big': True, 'radii': [3, 4, 5, 9]},
                   {'leg': 'big', 'kind': 'line', 'dims': [600], 'big': True, 'radii': [1, 150, 300, 601]}]
